@@ -8,6 +8,7 @@ import GB.C20.ProofsLegalMain
 import GB.C20.ProofsStSoundMain
 import GB.C20.ProofsGwSoundMain
 import GB.C20.ProofsClasses
+import GB.C20.ProofsRecog
 import GB.Generated.Facts
 /-
   C20 — property theorems. Helper lemmas live in Proofs*.lean.
@@ -74,9 +75,7 @@ theorem C20_facts_fixes :
 /-! ### the grammar recogniser used as the oracle of the correspondence run -/
 
 /-- A `some` answer of the recogniser is a derivation (with that abstract syntax): the oracle never
-    calls a string derivable that is not. (The converse — the recogniser finds every derivation — is
-    not proved; it is exercised on every enumerated derivation of the run, where a miss would show up
-    as a violation on the unchanged tree.) -/
+    calls a string derivable that is not. The converse is `C20_recogniser_complete`. -/
 theorem C20_recogniser_sound (s : Bytes) (t : Tmpl) (h : specParse s = some t) : Derives s t := by
   unfold specParse specParseWith at h
   cases hc : specCandidate s with
@@ -89,6 +88,53 @@ theorem C20_recogniser_sound (s : Bytes) (t : Tmpl) (h : specParse s = some t) :
       simp only [Bool.and_eq_true, beq_iff_eq] at hw
       exact ⟨hw.1, hw.2⟩
     · simp [hw] at h
+
+/-- **The recogniser finds every derivation**, with its abstract syntax: the oracle of the differential run
+    is exact. -/
+theorem C20_recogniser_complete (s : Bytes) (t : Tmpl) (h : Derives s t) : specParse s = some t := by
+  obtain ⟨hw, hr⟩ := h
+  rw [← hr]
+  exact specParseWith_complete false t hw
+
+/-- `inGrammar` decides the grammar's language; the same for the relaxed grammar -/
+theorem C20_recogniser_exact (s : Bytes) :
+    (inGrammar s = true ↔ ∃ t, Derives s t) ∧ ((specParseWith true s).isSome = true ↔ ∃ t, DerivesRelaxed s t) := by
+  constructor
+  · constructor
+    · intro h
+      unfold inGrammar at h
+      cases hs : specParse s with
+      | none => simp [hs] at h
+      | some t => exact ⟨t, C20_recogniser_sound s t hs⟩
+    · rintro ⟨t, ht⟩
+      simp [inGrammar, C20_recogniser_complete s t ht]
+  · constructor
+    · intro h
+      cases hs : specParseWith true s with
+      | none => simp [hs] at h
+      | some t =>
+        refine ⟨t, ?_⟩
+        unfold specParseWith at hs
+        cases hc : specCandidate s with
+        | none => simp [hc] at hs
+        | some t' =>
+          simp only [hc] at hs
+          by_cases hw : (t'.wfB true && t'.render == s) = true
+          · simp only [hw, if_true, Option.some.injEq] at hs
+            subst hs
+            simp only [Bool.and_eq_true, beq_iff_eq] at hw
+            exact ⟨hw.1, hw.2⟩
+          · simp [hw] at hs
+    · rintro ⟨t, hw, hr⟩
+      rw [← hr, specParseWith_complete true t hw]; rfl
+
+/-- the grammar (with the stated reading of `:`) is unambiguous: a string has at most one abstract syntax, so
+    "the verb and field paths the grammar assigns" are well defined -/
+theorem C20_grammar_unambiguous (s : Bytes) (t t' : Tmpl) (h : Derives s t) (h' : Derives s t') : t = t' := by
+  have h1 := C20_recogniser_complete s t h
+  have h2 := C20_recogniser_complete s t' h'
+  rw [h1] at h2
+  exact Option.some.inj h2
 
 /-! ### tokenizer (both packages), over arbitrary byte strings -/
 
